@@ -316,7 +316,7 @@ _JOB_UNIT = None
 
 
 def scalar_of(unit):
-    return "vt::Arch" if unit.name.startswith("arch_") else "double"
+    return "vt::Arch" if (unit.name.startswith("arch_") or unit.name.endswith("_arch")) else "double"
 BIGCONV_CLAUSE = "integers enter the scalar type through static_cast of a value that fits an int"
 RAWCMP_CLAUSE = "scalar values are compared with the scalar type's own operators, never byte-wise"
 
@@ -390,7 +390,8 @@ RULE_TEXT = {
     "R-REG.unchanged": "R-REG (C14 view): the state of every operand is identical before and after each evaluated "
                        "operation; refused in-place operations leave the target unchanged",
     "R-REG.arch": "R-REG on the instantiation with the scalar archetype vt::Arch: grids, supports, evaluation, validity, "
-                  "arithmetic, scalar forms, linearCombination, predicates, generator and interpolation argument checks "
+                  "arithmetic, scalar forms, linearCombination, predicates, generator, interpolation argument checks and the "
+                  "operator / bilinear-form / linear-form cases of drivers/cases.h "
                   "meet the same specifications as the instantiation with double (archetype operators act on the "
                   "abstract scalar domain)",
     "R-REG.divzero": "R-REG (C19 view): generating B-splines from every knot sequence (all multiplicity patterns up to the "
